@@ -33,7 +33,7 @@
   (`project_from_mapFree`, `project_to_mapFree`).  What this does NOT cover: the marks on the real `EditedTreeNode`s
   (`removed` / `inserted` / `edit.to_node`) are tied to the model's script by the `script` stream's monitor, not by a
   theorem; `keep_reproduces` below is the older PER-NODE statement (it re-reads `LocalAcc` for one compound edit and
-  does not mention `edits`; kept because C06's proofs use it).
+  does not mention `edits`; kept as the registered per-node statement — `pick` / `pick_ixRange` are also used by C01x and C06).
 
   Hypothesis `Tree.KeysDistinct` (no mapping holds a key twice; true of every tree `build` makes from a Python dict,
   `build_keysDistinct`) is needed for the TO side of the two mapping edits only: with a duplicated key the model
